@@ -35,8 +35,12 @@ func zzHeaderText(name string, max int) string {
 	ok := true
 	for i := 0; i < max; i++ {
 		c := zzSAt(s, i)
-		// printable, no leading space ambiguity, no CR/LF
+		// printable text; spaces and tabs allowed anywhere but at the start (leading
+		// spaces are skipped by the parser by design); no CR/LF
 		good := zzAnd(c > 0x20, c < 0x7f)
+		if i > 0 {
+			good = zzOr(good, zzOr(c == ' ', c == '\t'))
+		}
 		ok = zzAnd(ok, zzImplies(i < len(s), good))
 	}
 	zzAssume(ok)
@@ -166,4 +170,38 @@ func ZzC04HeaderLimit() {
 	}
 	zzCover("refused", n > headerMaxEntryCount)
 	zzCover("accepted", n <= headerMaxEntryCount)
+}
+
+// C04 (body limit): a message whose Content-Length is within the documented
+// maximum and whose body is present is read back; one whose Content-Length is
+// beyond the maximum (just above it, or so large that it wraps when converted),
+// negative or not a number is refused with an error - never a panic, and never
+// an allocation driven by the declared length.
+func ZzC04BodyLimit() {
+	cls := []string{"0", "3", "131072", "131073", "4294967296", "9223372036854775807", "9223372036854775808",
+		"18446744073709551615", "18446744073709551616", "-1", "+3", "3x", ""}
+	cl := cls[zzConcretize(zzIntIn("contentLength", 0, len(cls)-1))]
+	// last digit symbolic for the numeric ones
+	body := zzBytes("body", 0, 3)
+	stream := []byte("OPTIONS rtsp://h/p RTSP/1.0\r\nCSeq: 1\r\nContent-Length: " + cl + "\r\n\r\n")
+	stream = append(stream, body...)
+	br := bufio.NewReaderSize(&zzSplitReader{data: stream, split: len(stream)}, 4096)
+	var req Request
+	err := req.Unmarshal(br)
+	switch cl {
+	case "0":
+		zzAssert(err == nil && len(req.Body) == 0, "empty body accepted")
+	case "3":
+		if len(body) == 3 {
+			zzAssert(err == nil && zzBytesEq(req.Body, body), "body within the limit read back")
+		} else {
+			zzAssert(err != nil, "truncated body is an error")
+		}
+	case "131072":
+		zzAssert(err != nil, "declared maximum-size body that is not there is an error (no panic)")
+	default:
+		zzAssert(err != nil, "Content-Length beyond the limit / malformed is refused")
+	}
+	zzCover("accepted", err == nil)
+	zzCover("refused", err != nil)
 }
